@@ -11,6 +11,8 @@ tie:   random operation histories (SetPoints / SetWeights / Query / GetItem) ove
        coordinates; the list of observations is compared inside Coq (vm_compute) with `run ball_ref impl_cfg …`.
        The oracle hypothesis `oracle_ok` is validated against scipy's cKDTree; `slice_indices` against Python's
        slice.indices exhaustively on a small box.
+float: tiny / equal / permuted / same-object reassignments of points and weights after the tree exists, judged by an
+       exact-rational oracle on the implementation (radius between a point's old and new distance).
 search: an independent brute-force oracle judges every in-scope step of every history on the implementation; a
        property failure that the (agreeing) model does not attribute to a flagged, directed-witness defect is a
        violation with the concrete history as replay.
@@ -601,6 +603,167 @@ def anchored_units():
     return units
 
 
+# ---------------------------------------------------------------------------------------------- float perturbation histories
+# Judged by an exact-rational oracle on the implementation only (the integer model does not represent them): after a
+# finite-radius query has built the neighbour tree, points (weights) are REASSIGNED to a tiny perturbation / an equal copy /
+# a permuted copy / the same array object edited in place before the reassignment, and a later query whose sphere boundary
+# lies between a point's old and new distance must answer for the new values.
+MARGIN = 2e-14  # every point must be off the sphere boundary by this relative margin in d^2 (float round-off is ~5e-16)
+
+
+def fbits(row) -> tuple:
+    return tuple(wbits(v) for v in np.atleast_1d(row))
+
+
+def float_expected(g, centre, r):
+    """Exact membership (Fractions) over the grid's current public points; None if some point is too close to the boundary."""
+    P = np.asarray(g.points, dtype=float)
+    W = np.asarray(g.weights, dtype=float)
+    rows = P.reshape(len(W), -1)
+    c = [Fraction(float(v)) for v in np.atleast_1d(centre)]
+    r2 = Fraction(float(r)) ** 2
+    out = []
+    for i, row in enumerate(rows):
+        d2 = sum((Fraction(float(x)) - y) ** 2 for x, y in zip(row, c))
+        if abs(float(d2 - r2)) <= MARGIN * max(1.0, float(r2)):
+            return None
+        if d2 <= r2:
+            out.append((i, fbits(row), wbits(W[i])))
+    return out
+
+
+def float_observe(g, centre, r):
+    try:
+        lg = g.get_localgrid(centre, r)
+        P, W, I = np.asarray(lg.points), np.asarray(lg.weights), np.asarray(lg.indices)
+        if len(W) != len(P) or len(W) != len(I):
+            return f"shapes points{P.shape} weights{W.shape} indices{I.shape}"
+        return sorted((int(I[j]), fbits(P[j]), wbits(W[j])) for j in range(len(W)))
+    except Exception as e:  # noqa: BLE001
+        return f"{type(e).__name__}: {str(e)[:60]}"
+
+
+def float_step(g, st, state):
+    """Apply one step of a float history (pure function of the description, used by run and replay)."""
+    if st["op"] == "query":
+        return float_observe(g, st["centre"] if isinstance(st["centre"], float) else np.array(st["centre"], dtype=float), st["r"])
+    attr = "points" if st["op"] == "setpoints" else "weights"
+    old = np.asarray(getattr(g, attr), dtype=float)
+    mode = st["mode"]
+    if mode == "rel":
+        new = old * (1.0 + st["eps"])
+    elif mode == "abs":
+        new = old + st["eps"]
+    elif mode == "copy":
+        new = old.copy()
+    elif mode == "perm":
+        new = old[np.array(st["perm"])].copy()
+    elif mode == "shift":          # a fresh array, remembered so that a later step can edit it in place and assign it again
+        new = old + st["eps"]
+        state["held"] = new
+    elif mode == "inplace-then-reassign":
+        new = state["held"]
+        new += st["eps"]           # in-place edit of the array the grid already holds ...
+    else:
+        raise ValueError(mode)
+    setattr(g, attr, new)          # ... followed by an assignment (of a new or of the very same object)
+    return "ok"
+
+
+def fshort(x):
+    if isinstance(x, str) or x is None:
+        return str(x)
+    return "indices=" + ",".join(str(t[0]) for t in x)
+
+
+def gen_float_history(rng, kind):
+    desc = gen_desc(rng, kind)
+    if kind == "OneDGrid":
+        desc["domain"] = None if rng.random() < 0.5 else [-50, 50]
+    g = build_grid(desc)
+    P = np.asarray(g.points, dtype=float)
+    n = len(np.asarray(g.weights))
+    rows = P.reshape(n, -1)
+    d = rows.shape[1]
+    flat = P.ndim == 1
+    mk = lambda c: float(c[0]) if flat else [float(v) for v in c]  # noqa: E731
+    c0 = [rng.randint(-5, 5) for _ in range(d)]
+    steps = [{"op": "query", "centre": mk(c0), "r": radius_of(rng.randint(0, 30))["r"]}]   # builds the tree
+    what = rng.choice(["points"] * 3 + ["weights"])
+    u = rng.random()
+    if what == "weights":
+        mode = rng.choice(["rel", "abs", "copy", "perm"])
+        st = {"op": "setweights", "mode": mode}
+        if mode == "rel":
+            st["eps"] = rng.choice([1e-9, 1e-8, 1e-7, 1e-6, 5e-6, 1e-5]) * rng.choice((1, -1))
+        elif mode == "abs":
+            st["eps"] = rng.choice([1e-11, 1e-10, 1e-9, 5e-9, 1e-8]) * rng.choice((1, -1))
+        elif mode == "perm":
+            st["perm"] = rng.sample(range(n), n)
+        steps.append(st)
+        steps.append({"op": "query", "centre": mk(rng.choice(rows.tolist())), "r": radius_of(rng.randint(1, 40))["r"]})
+        return desc, steps
+    if u < 0.3:
+        st = [{"op": "setpoints", "mode": "rel", "eps": rng.choice([1e-9, 1e-8, 1e-7, 1e-6, 5e-6, 1e-5]) * rng.choice((1, -1))}]
+    elif u < 0.6:
+        st = [{"op": "setpoints", "mode": "abs", "eps": rng.choice([1e-12, 1e-11, 1e-10, 1e-9, 5e-9, 1e-8]) * rng.choice((1, -1))}]
+    elif u < 0.7:
+        st = [{"op": "setpoints", "mode": "copy"}]
+    elif u < 0.85:
+        st = [{"op": "setpoints", "mode": "perm", "perm": rng.sample(range(n), n)}]
+    else:
+        st = [{"op": "setpoints", "mode": "shift", "eps": float(rng.randint(-2, 2))},
+              {"op": "query", "centre": mk(c0), "r": radius_of(rng.randint(0, 30))["r"]},
+              {"op": "setpoints", "mode": "inplace-then-reassign", "eps": rng.choice([5e-9, 1e-6, 1.0, 3.0])}]
+    steps += st
+    # final query: a radius between the old and the new distance of some point (found on a scratch instance)
+    g2, state = build_grid(desc), {}
+    old = np.asarray(g2.points, dtype=float).reshape(n, -1).copy()
+    for s_ in steps[1:]:
+        if s_["op"] != "query":
+            float_step(g2, s_, state)
+    new = np.asarray(g2.points, dtype=float).reshape(n, -1)
+    best = None
+    for _ in range(12):
+        i = rng.randrange(n)
+        c = [float(v) for v in (old[i] + [rng.randint(-3, 3) for _ in range(d)])]
+        do, dn = math.dist(old[i], c), math.dist(new[i], c)
+        if abs(do - dn) > 4 * MARGIN * max(1.0, do):
+            best = (c, (do + dn) / 2)
+            break
+    if best is None:   # the reassignment does not move any distance (copy / permutation): any radius will do
+        c = [float(v) for v in rng.choice(old.tolist())]
+        best = (c, radius_of(rng.randint(0, 40))["r"])
+    steps.append({"op": "query", "centre": mk(best[0]), "r": best[1]})
+    return desc, steps
+
+
+def run_float_history(desc, steps):
+    """Returns (index of the first failing judged step or None, observed, expected, integrate_problem, skipped)."""
+    g, state = build_grid(desc), {}
+    for j, st in enumerate(steps):
+        if st["op"] == "query":
+            c = st["centre"] if isinstance(st["centre"], float) else np.array(st["centre"], dtype=float)
+            exp = float_expected(g, c, st["r"])
+            ob = float_step(g, st, state)
+            if exp is None:
+                if j == len(steps) - 1:
+                    return None, None, None, None, True
+                continue
+            if ob != exp:
+                return j, ob, exp, None, False
+        else:
+            float_step(g, st, state)
+            if st["op"] == "setweights":
+                W = [float(v) for v in np.asarray(g.weights)]
+                tot, scale = math.fsum(W), math.fsum(abs(v) for v in W)
+                got = float(g.integrate(np.ones(len(W))))
+                if abs(got - tot) > 1e-13 * max(scale, 1e-300):
+                    return j, f"integrate(1)={got!r}", f"sum(new weights)={tot!r}", True, False
+    return None, None, None, None, False
+
+
+
 HDR = ("From Coq Require Import ZArith List Bool.\nFrom P Require Import C10_model C10_gen.\n"
        "Import ListNotations.\nOpen Scope Z_scope.\n")
 
@@ -783,6 +946,43 @@ def run(ctx: Ctx):
                      f"{h.kind}: step {j} ({coq_op(h.ops[j])}) observed {short(h.obs[j])}, the property requires {short(v[1])}",
                      {"history": h.script(j), "observed_full": h.obs[j], "expected": v[1]})
 
+    # ---------------- float perturbation histories (judged on the implementation by an exact-rational oracle)
+    fkinds = ["Grid", "Grid", "OneDGrid", "MolGrid", "UniformGrid"]
+    nf, done, skipped, freports = (400 if ctx.quick else 4000), 0, 0, 0
+    while done < nf:
+        kind = fkinds[done % len(fkinds)]
+        desc, steps = gen_float_history(rng, kind)
+        j, ob, exp, integ, skip = run_float_history(desc, steps)
+        done += 1
+        if skip:
+            skipped += 1
+            continue
+        mode = next(st["mode"] for st in reversed(steps) if st["op"] != "query")
+        what = next(st["op"] for st in steps if st["op"] != "query")
+        ctx.case(json.dumps({"grid": desc, "steps": steps}, sort_keys=True), traces=len(steps))
+        ctx.count(f"float:{kind}:{what}:{mode}")
+        if j is not None:
+            freports += 1
+            if freports > MAXREP:
+                continue
+            hist = {"grid": desc, "steps": steps[: j + 1]}
+            ctx.fail("query_refines_spec", "float:" + json.dumps(hist, separators=(",", ":"), sort_keys=True), fshort(ob),
+                     f"{kind}: after [{'; '.join(st['op'] + (':' + st['mode'] if 'mode' in st else '') for st in steps[:j])}] "
+                     f"step {j} ({steps[j]['op']}) observed {fshort(ob)}, the current points/weights require {fshort(exp)}",
+                     {"float_history": hist, "observed_full": ob, "expected": exp})
+    ctx.count("float:skipped-boundary-margin", skipped)
+    ctx.cov["float_history_failures"] = freports
+    # informational, NOT judged: editing the assigned array in place without assigning again (see assumptions)
+    try:
+        from grid.basegrid import Grid
+        A = np.array([[float(i), 0.0, 0.0] for i in range(40)])
+        gi = Grid(A, np.ones(40))
+        gi.get_localgrid(np.zeros(3), 1.5)
+        A[39] = [0.5, 0.0, 0.0]
+        ctx.notes.append("in-place edit of the held points array without reassignment (not judged): indices within 1.5 of the origin = "
+                         f"{sorted(int(v) for v in gi.get_localgrid(np.zeros(3), 1.5).indices)} (current values would give [0, 1, 39])")
+    except Exception as e:  # noqa: BLE001
+        ctx.notes.append(f"in-place edit probe raised {type(e).__name__}")
     ctx.cov["unexplained_property_failures"] = unexplained
     for h in (hs[0], hs[1], hs[len(FLAGS)], hs[len(FLAGS) + 3], hs[len(FLAGS) + 4], hs[-1]):
         ctx.sample({"grid": h.desc, "ops": h.ops[:4], "observed": [short(o) if o[0] != "done" else "ok" for o in h.obs[:4]]})
@@ -809,7 +1009,10 @@ def run(ctx: Ctx):
     ]
     ctx.assumptions += [
         "integer coordinates and centres (exact squared distances); float round-off at ball boundaries is out of scope",
-        "arrays are reassigned, never mutated in place (cKDTree does not copy its data)",
+        "the property speaks of reassignments: editing, in place and without assigning again, an array the grid holds by reference "
+        "(the library never copies and cKDTree aliases its data) is NOT judged; an in-place edit FOLLOWED by an assignment of the "
+        "same array object is a reassignment and is judged (float histories)",
+        "float perturbation histories are judged only when every point is off the sphere boundary by a relative margin 2e-14 in d^2",
         "selection is claimed for Grid, OneDGrid, PeriodicGrid; an empty selection on a OneDGrid with a domain or on a "
         "PeriodicGrid with lattice vectors, and a selection of points lying outside the OneDGrid domain, are rejected by the constructors and "
         "are treated as outside the property (modelled, not judged)",
@@ -818,6 +1021,12 @@ def run(ctx: Ctx):
 
 
 def replay(rp):
+    if "float_history" in rp:
+        fh = rp["float_history"]
+        j, ob, exp, _, _ = run_float_history(fh["grid"], fh["steps"])
+        print(json.dumps(fh))
+        print("failing step:", j, "| observed:", fshort(ob), "| required:", fshort(exp))
+        return 1 if j is not None else 0
     h = History(rp["history"]["grid"], rp["history"]["ops"]).run()
     for o, ob, v in zip(h.ops, h.obs, h.verdicts):
         print(json.dumps(o), "->", short(ob) if ob[0] != "done" else "ok", "|", v[0], short(v[1]) if v[0] == "fail" else "")
